@@ -516,5 +516,205 @@ theorem decFrom_of_enc (hr : RecOk S g r) (hnd : allDistinct (d.fields.map (·.n
             rw [this]
             simpa using hprog2
 
+/-- at the end of the member list nothing is parked -/
+theorem Prog.final {st : DecState} {pend : Pend} (h : Prog S T r d vs d.fields st pend) : pend = none := by
+  cases hpe : pend with
+  | none => rfl
+  | some q =>
+    obtain ⟨dn, w, G⟩ := q
+    obtain ⟨-, -, -, hne, -, -, ⟨dnf, hd, hn⟩, -⟩ := h.qsome dn w G hpe
+    exact absurd hn (hne dnf hd)
+
+theorem Prog.init (buf : Bytes) : Prog S T r d vs [] { buf := buf, origLen := buf.length } none :=
+  ⟨(fun _ h => by cases h), (fun _ h => by cases h), (fun _ h => by cases h), (fun _ h => by cases h), (fun _ => rfl),
+    (fun _ _ _ h => by cases h)⟩
+
+/-- `deserialize` over a prefix `fs` of the members, from the start of the buffer -/
+theorem decFields_of_enc (hr : RecOk S g r) (hnd : allDistinct (d.fields.map (·.name)) = true)
+    (hwf : wfFieldsFrom S d [] d.fields = true) (hcov : coveredFrom S [] d.fields = true)
+    (hadm : ∀ f ∈ d.fields, admCond r d vs f = true ∧ admMember g vs f = true)
+    (hun : admUnionsFrom r d vs [] d.fields = true)
+    {b : Bytes} (he : encFrom S T r d vs d.fields = .ok b)
+    (fs post : List Field) (hsplit : d.fields = fs ++ post) (hcut : post = [] ∨ ∀ f ∈ fs, f.cond = none)
+    (d' : StructDef) (tail : Bytes) :
+    ∃ st' pend', decFields S T r d' fs (b ++ tail) = .ok st' ∧ Prog S T r d vs fs st' pend' := by
+  have hsize := sizeFrom_of_enc hr.law d.fields b (fun f hf => (hadm f hf).2) he
+  cases fs with
+  | nil => exact ⟨_, none, rfl, Prog.init _⟩
+  | cons f0 fs1 =>
+    have hsplit0 : d.fields = [] ++ (f0 :: fs1) ++ post := by simpa using hsplit
+    obtain ⟨b1, b2, he1, he2, hb⟩ := encFrom_append_ok (f0 :: fs1) post (by rw [← hsplit]; exact he)
+    have hst0 : StSz { buf := b ++ tail, origLen := (b ++ tail).length } := fun sz h => by cases h
+    have hprog0 : Prog S T r d vs [] { buf := b ++ tail, origLen := (b ++ tail).length } none := Prog.init _
+    by_cases hk : ∃ w, f0.kind = .sizeF w
+    · obtain ⟨w, hk⟩ := hk
+      -- the struct's size member: the window becomes exactly the rest of the encoding
+      obtain ⟨p, bf, t, hp, hbf, ht, hb1⟩ := encFrom_cons_ok he1
+      have hwf' := hwf
+      rw [hsplit] at hwf'
+      simp only [List.cons_append, wfFieldsFrom, Bool.and_eq_true] at hwf'
+      have hcov' := hcov
+      rw [hsplit] at hcov'
+      simp only [List.cons_append, coveredFrom, Bool.and_eq_true] at hcov'
+      have hcond := (wfFieldAt_sizeF hwf'.1 hk).2
+      have hp' := condOnObject_of_none r d.fields vs f0 hcond
+      rw [hp'] at hp
+      simp only [Except.ok.injEq] at hp
+      subst hp
+      simp only [if_true] at hbf
+      have hsplit' : d.fields = [] ++ f0 :: (fs1 ++ post) := by simpa using hsplit
+      have hm0 := (hadm f0 (by rw [hsplit]; simp)).2
+      obtain ⟨v, hdec, hfull⟩ := decPayload_of_enc hr hnd hsplit' hwf'.1 (env := []) (fun _ h => by cases h) hm0 hbf
+        (t ++ b2 ++ tail) (by intro ⟨e, a, p, k, h⟩; rw [hk] at h; cases h)
+      -- the value read is the length of the whole encoding
+      have hv : v = .int (b.length : Int) := by
+        unfold FullVal at hfull
+        simp only [hk, FK.carries, Bool.false_eq_true, if_false, derivedValue] at hfull
+        obtain ⟨i, hi, rfl⟩ := hfull
+        unfold structSize at hi
+        rw [hsize] at hi
+        simp only [bind, Except.bind, Except.ok.injEq] at hi
+        rw [hi]
+      subst hv
+      have hbdecomp : b ++ tail = bf ++ (t ++ b2 ++ tail) := by rw [hb, hb1]; simp
+      let st1 : DecState := DecState.mk (t ++ b2) [(f0.name, .int (b.length : Int))] [] (b ++ tail).length (some b.length)
+      have hstep : decFieldStep S T r d' { buf := b ++ tail, origLen := (b ++ tail).length } 0 f0 = .ok st1 := by
+        unfold decFieldStep
+        simp only [rebase_of_ok d' _ 0 hst0, hcond]
+        unfold decPlainField
+        simp only []
+        rw [hbdecomp, hdec]
+        simp only [bind, Except.bind]
+        unfold afterPlain
+        simp only [hk, Int.toNat_natCast]
+        rw [flushQueued_none _ _ _ _ _ rfl]
+        have : (bf ++ (t ++ b2 ++ tail)).take b.length = bf ++ (t ++ b2) := by
+          have hl : b.length = (bf ++ (t ++ b2)).length := by rw [hb, hb1]; simp
+          have he : bf ++ (t ++ b2 ++ tail) = (bf ++ (t ++ b2)) ++ tail := by simp
+          rw [hl, he]
+          exact take_append_length _ _
+        simp only [this, st1, List.drop_left, List.nil_append, hbdecomp]
+      have hsz1 : StSz st1 := fun sz h => by
+        have h' : some b.length = some sz := h
+        cases h'
+        show b.length ≤ (b ++ tail).length
+        simp
+      have hprog1 : Prog S T r d vs ([] ++ [f0]) st1 none := by
+        have h1 := Prog.std hnd hsplit' hprog0 (EntryOk.of_full hp' hfull) (t ++ b2)
+          (fun c hc => by rw [hcond] at hc; cases hc) (fun _ _ _ h => by cases h)
+        exact ⟨h1.names, h1.got, h1.resolved, hsz1, h1.qnone, h1.qsome⟩
+      have hpost : (∃ f ∈ fs1, ∃ e a p k, f.kind = .array e .fill a p k) → b2 = [] := by
+        intro hf
+        have hwf2 : wfFieldsFrom S d [f0] (fs1 ++ post) = true := by simpa using hwf'.2
+        obtain ⟨hpost, -⟩ := fill_last fs1 [f0] post hwf2 hf
+        rw [hpost] at he2
+        exact encFrom_nil_ok he2
+      obtain ⟨st2, pend2, hfrom, -, hprog2⟩ := decFrom_of_enc hr hnd hadm hun d' fs1.length fs1 [f0] post st1 none t b2 1
+        (Nat.le_refl _) (by simpa using hsplit)
+        (by rcases hcut with h | h
+            · exact .inl h
+            · exact .inr (fun x hx => h x (by simp [hx])))
+        (by simpa using hwf'.2) (by simpa using hcov'.2)
+        (fun f hf => not_sizeF_of_wf (fs1 ++ post) [f0] (by simp) (by simpa using hwf'.2) f (List.mem_append_left _ hf))
+        (by simpa using hprog1) (fun _ _ _ h => by cases h) ht rfl hpost
+      refine ⟨st2, pend2, ?_, by simpa using hprog2⟩
+      unfold decFields decFrom
+      simp only [hstep, bind, Except.bind]
+      exact hfrom
+    · -- no size member: the segment is read as a prefix of the buffer
+      have hnsz : ∀ f ∈ f0 :: fs1, ∀ w, f.kind ≠ .sizeF w := by
+        intro f hf w hkf
+        rcases List.mem_cons.mp hf with rfl | hf'
+        · exact hk ⟨w, hkf⟩
+        · have hwf' := hwf
+          rw [hsplit] at hwf'
+          simp only [List.cons_append, wfFieldsFrom, Bool.and_eq_true] at hwf'
+          exact not_sizeF_of_wf (fs1 ++ post) [f0] (by simp) (by simpa using hwf'.2) f (by simp [hf']) w hkf
+      have hfill : (∃ f ∈ f0 :: fs1, ∃ e a p k, f.kind = .array e .fill a p k) → b2 ++ tail = [] := by
+        intro hf
+        have hwf' := hwf
+        rw [hsplit] at hwf'
+        obtain ⟨-, hfirst⟩ := fill_last (f0 :: fs1) [] post hwf' hf
+        unfold firstIsSizeF at hfirst
+        rw [hsplit] at hfirst
+        simp only [List.cons_append] at hfirst
+        cases hk0 : f0.kind <;> simp [hk0] at hfirst
+        exact absurd ⟨_, hk0⟩ hk
+      obtain ⟨st2, pend2, hfrom, -, hprog2⟩ := decFrom_of_enc hr hnd hadm hun d' (f0 :: fs1).length (f0 :: fs1) [] post
+        { buf := b ++ tail, origLen := (b ++ tail).length } none b1 (b2 ++ tail) 0
+        (Nat.le_refl _) hsplit0 hcut (by rw [← hsplit]; exact hwf) (by rw [← hsplit]; exact hcov) hnsz
+        hprog0 (fun _ _ _ h => by cases h) he1 (by simp [hb]) hfill
+      exact ⟨st2, pend2, hfrom, by simpa using hprog2⟩
+
+/-! ### the object read back -/
+
+theorem allDistinct_filter_names (p : Field → Bool) (fs : List Field) (h : allDistinct (fs.map (·.name)) = true) :
+    allDistinct ((fs.filter p).map (·.name)) = true := by
+  induction fs with
+  | nil => rfl
+  | cons f fs ih =>
+    rw [List.map_cons] at h
+    obtain ⟨h1, h2⟩ := allDistinct_cons h
+    rw [List.filter_cons]
+    split
+    · rw [List.map_cons]
+      simp only [allDistinct, Bool.and_eq_true, Bool.not_eq_true', List.contains_eq_mem, decide_eq_false_iff_not]
+      refine ⟨fun hm => h1 ?_, ih h2⟩
+      obtain ⟨x, hx, hxn⟩ := List.mem_map.mp hm
+      exact List.mem_map.mpr ⟨x, (List.mem_filter.mp hx).1, hxn⟩
+    · exact ih h2
+
+theorem mapM_lookup (env : List (String × Val)) (fs : List Field) : ∀ (vs : List (String × Val)),
+    vs.map (·.1) = fs.map (·.name) → allDistinct (fs.map (·.name)) = true →
+    (∀ f ∈ fs, ∃ v, Val.get env f.name = some v ∧ Val.get vs f.name = some v) →
+    fs.mapM (fun f => match Val.get env f.name with
+      | some v => (.ok (f.name, v) : R (String × Val))
+      | none => .error .missing) = .ok vs := by
+  induction fs with
+  | nil =>
+    intro vs hn _ _
+    cases vs with
+    | nil => rfl
+    | cons a as => simp at hn
+  | cons f fs ih =>
+    intro vs hn hd hget
+    cases vs with
+    | nil => simp at hn
+    | cons a as =>
+      obtain ⟨n, v⟩ := a
+      simp only [List.map_cons, List.cons.injEq] at hn
+      obtain ⟨hn1, hn2⟩ := hn
+      subst hn1
+      rw [List.map_cons] at hd
+      obtain ⟨hd1, hd2⟩ := allDistinct_cons hd
+      obtain ⟨v', hv1, hv2⟩ := hget f (by simp)
+      have : v' = v := by
+        simp only [Val.get, List.find?_cons, beq_self_eq_true, Option.map_some, Option.some.injEq] at hv2
+        exact hv2.symm
+      subst this
+      have hrest := ih as hn2 hd2 (fun f' hf' => by
+        obtain ⟨w, hw1, hw2⟩ := hget f' (by simp [hf'])
+        refine ⟨w, hw1, ?_⟩
+        have hne : (f.name == f'.name) = false := by
+          have : f.name ≠ f'.name := fun h => hd1 (h ▸ List.mem_map_of_mem (f := (·.name)) hf')
+          simp [this]
+        simpa only [Val.get, List.find?_cons, hne] using hw2)
+      rw [List.mapM_cons]
+      simp only [hv1, hrest, bind, Except.bind, pure, Except.pure]
+
+theorem objectOf_of_env (hnd : allDistinct (d.fields.map (·.name)) = true) (hshape : shapeOk d vs = true)
+    {st : DecState} {pend : Pend} (hprog : Prog S T r d vs d.fields st pend) : objectOf d st.env = .ok vs := by
+  have hpn := hprog.final
+  subst hpn
+  unfold objectOf
+  unfold shapeOk at hshape
+  apply mapM_lookup st.env _ vs (by simpa using hshape) (allDistinct_filter_names _ _ hnd)
+  intro f hf
+  obtain ⟨hf1, hf2⟩ := List.mem_filter.mp hf
+  obtain ⟨v, hv, hp⟩ := hprog.got f hf1 (NotParked.none f)
+  unfold EntryOk at hp
+  simp only [hf2, if_true] at hp
+  exact ⟨v, hv, hp⟩
+
 end
 end SymbolVerif.Codec
